@@ -1098,6 +1098,13 @@ x
             raise ValueError("The seeds and samples do not belong \
                                   to the same space")
 
+        if self.V < 2:
+            # a single cell: there is no pair of seeds to link
+            self.E = 0
+            self.edges = np.zeros((0, 2), dtype=np.intp)
+            self.weights = np.zeros(0)
+            return
+
         #1. define the graph knn(samples, seeds, 2)
         j = cross_knn(samples, seeds, 2).edges[:, 1]
 
